@@ -20,6 +20,18 @@ WALKER = 'pylatexenc.latexwalker._walker'
 from .. import core as _core20
 
 
+import re as _re20
+_LINECOL_RX = _re20.compile(r'(^|_)(lineno|colno|line_no|col_no|linenumber|colnumber)($|_)')
+
+
+def _is_truthiness_of_linecol(t):
+    if isinstance(t, ast.UnaryOp) and isinstance(t.op, ast.Not):
+        t = t.operand
+    if isinstance(t, (ast.Name, ast.Attribute)):
+        return bool(_LINECOL_RX.search(unparse(t).rsplit('.', 1)[-1]))
+    return False
+
+
 def run(ctx):
     repo = ctx.repo
     u = repo.mod(UTIL)
@@ -202,6 +214,14 @@ def run(ctx):
                     ctx.refuted('G9', mod, where, 'position value %s tested by truthiness: '
                                                   'position 0 is treated like "no position"'
                                 % short(t), construct='%s: %s' % (fn._qualname, short(where, 80)))
+                elif _is_truthiness_of_linecol(t):
+                    # G9-linecol: columns are 0-based and the first line number is configurable
+                    # (line_number_offset), so 0 is a legitimate value of both
+                    n += 1
+                    ctx.refuted('G9', mod, where, 'line/column value %s tested by truthiness: column 0 (or line 0 '
+                                                  'with a line-number offset) is treated like "not known" and '
+                                                  'disappears from the report' % short(t),
+                                construct='%s: %s' % (fn._qualname, short(where, 80)))
     ctx.holds('G9', w, ex, 'no truthiness test on a position value in _util/_walker/_exctypes '
                            '(%d functions scanned)' % sum(len(m.functions) for m in (u, w)),
               construct='scan of position tests')
